@@ -139,6 +139,10 @@ class Unit:
                     default_src = toks[1]
             elif kw == 'rules':
                 self.rules = toks[1:]
+            elif kw == 'include':
+                flush_verbatim()
+                ip = os.path.join(os.path.dirname(os.path.dirname(self.path)), toks[1])
+                self._emit_verbatim('// ---- included from units/%s ----\n' % toks[1] + open(ip).read())
             elif kw in ('struct', 'enum'):
                 flush_verbatim()
                 flags, kv = _kv(toks[2:])
@@ -326,7 +330,7 @@ class Unit:
 
     # ------------------------------------------------------------------
     def _parse_fn_block(self, block):
-        spec = dict(requires=[], ensures=[], decreases=[], loops={}, closures={}, hints=[], replaces=[])
+        spec = dict(requires=[], ensures=[], decreases=[], loops={}, closures={}, hints=[], replaces=[], chains=[])
         cur = None
         for ln in block:
             s = ln.strip()
@@ -353,6 +357,10 @@ class Unit:
                     ent = dict(where=kw, anchor=mm.group(1).replace('\\"', '"'), nth=int(mm.group(2) or 0), lines=[])
                     spec['hints'].append(ent)
                     cur = ent['lines']
+                elif kw == 'chain':
+                    mm = re.match(r'"((?:[^"\\]|\\.)*)"\s*(\w+)?\s*(mut)?', rest)
+                    spec['chains'].append((mm.group(1).replace('\\"', '"'), mm.group(2) or 'c', bool(mm.group(3))))
+                    cur = None
                 elif kw == 'replace':
                     mm = re.match(r'"((?:[^"\\]|\\.)*)"\s*=>\s*"((?:[^"\\]|\\.)*)"\s*::\s*(.*)$', rest)
                     if not mm:
@@ -403,6 +411,7 @@ class Unit:
             text = R.r5_unreachable(text, log)
         if 'R1' in rules:
             text = R.r1_erase_guards(text, log, 'selfmut' in flags)
+            text = R.r1_erase_ctor(text, log)
         if 'R2' in rules:
             text = R.r2_ref_patterns(text, log)
         if kv.get('r9'):
@@ -512,6 +521,10 @@ class Unit:
 
     def _splice_body(self, path, body, spec, log):
         """returns list of (line, tag) for the body with ghost text inserted."""
+        for anchor, prefix, mut in spec['chains']:
+            body, err = R.r8_let_chain(body, anchor, prefix, log, mut)
+            if err:
+                self.lost_anchors.append('%s: %s' % (path, err))
         sn = Snippet(body)
         edits = []   # (pos, end, replacement_text, taglines) ; insertion when pos==end
         # loops
